@@ -267,6 +267,11 @@ void sqf::parser::preprocessor::impl_default::instance::replace_skip(::sqf::runt
         if (in_string)
         {
             char c = fileinfo.next();
+            if (c == '\0')
+            { // unterminated string: end of the text that is being replaced
+                flag = false;
+                continue;
+            }
             if (c == '"')
             {
                 in_string = false;
@@ -296,10 +301,9 @@ void sqf::parser::preprocessor::impl_default::instance::replace_skip(::sqf::runt
                 case '\0':
                 flag = false;
                 break;
-                case '\r':
-                break;
                 case '"':
                 in_string = true;
+                case '\r': // next() steps over the carriage return
                 default:
                 sstream << fileinfo.next();
             }
